@@ -32,5 +32,8 @@ LoadFails(e) ==
           ELSE <<>>)
      ELSE IF o.verdict = "accept" THEN F("well-formed-text-not-loaded", e.kind = "module")
      ELSE F("ill-formed-text-loaded", e.kind = "raise" /\ e.type \in {"LexerError", "ParseError"})
-Verdict == PrintT(ToJson([i |-> i, fails |-> IF E.ev = "range" THEN RangeFails(E) ELSE LoadFails(E)]))
+(* for loads the reference outcome is printed too: the harness compares the returned tree with it after numeral
+   canonicalisation ("returns every character unchanged inside strings") *)
+Verdict == PrintT(ToJson(IF E.ev = "range" THEN [i |-> i, fails |-> RangeFails(E)]
+                         ELSE [i |-> i, fails |-> LoadFails(E), o |-> Load(E.d, E.text)]))
 =============================================================================
